@@ -32,11 +32,11 @@ for d in $SRC/out-C*/[AB]; do
   dest=$(grep -m1 '^// DEST:' $d/demo_test.go | sed 's|// DEST: *||')
   run=$(grep -m1 '^// RUN:' $d/demo_test.go | sed 's|// RUN: *||')
   (cd $WT && git checkout -q -- . && git clean -fdq)
-  cp $d/demo_test.go $WT/$dest
+  mkdir -p $(dirname $WT/$dest); cp $d/demo_test.go $WT/$dest
   (cd $WT && eval "$run") > /tmp/seedverify-demo-clean.txt 2>&1; c1=$?
   (cd $WT && git apply $d/patch.diff) || { echo "$id: patch does not apply"; continue; }
   (cd $WT && eval "$run") > /tmp/seedverify-demo-patched.txt 2>&1; c2=$?
-  rm -f $WT/$dest
+  rm -f $WT/$dest; (cd $WT && git clean -fdq)
   suite > /tmp/seedverify-patched.json
   same=$(python3 -c '
 import json
